@@ -1,4 +1,5 @@
 """Contract registry and the driver that turns one contract harness into named, discharged obligations."""
+import ast
 import time
 import traceback
 
@@ -197,3 +198,53 @@ def loop_cut(I, node, fr, name, havoc, inv, after_body=None):
         I.P.check("%s.inv-preserved" % name, inv(I, fr), "one iteration from an arbitrary invariant state re-establishes the invariant", kind="post")
         raise PathEnd()
     cover(I, name + ".exit")
+
+
+def fold_loop(name, terms, totals=None):
+    """Loop contract for `for x in seq: ... acc += f(x) ...` with arbitrary branching in the body (inductive invariant):
+    from an arbitrary accumulated value a, one iteration on an arbitrary element e turns acc into a + term(e).
+    terms: {variable: fn(I, element) -> Num}.  After the loop acc = acc0 + sum_i term(e_i) (+ tail elements), where the sum is
+    totals[var](I, seq) when given (an opaque ghost total, defined by this very induction) and a BigSum of term otherwise."""
+    from pyvc.builtins_model import SymSeq
+    from pyvc.interp import _Break, _Continue
+
+    def handler(I, node, fr):
+        seq = I.eval(node.iter, fr)
+        if not isinstance(seq, SymSeq):
+            raise Unsupported("fold_loop over %r" % type(seq).__name__)
+        P = I.P
+        olds = {v: I.to_num(fr.vars[v]) for v in terms}
+        mode = P.decide(2)
+        if mode == 0:
+            # inductive step on an arbitrary element (core or appended)
+            i = seq.fresh_index(I, "e")
+            for v in terms:
+                fr.vars[v] = alg.sym(P.fresh_name("acc_" + v))
+            start = {v: fr.vars[v] for v in terms}
+            elem = seq.at(I, i)
+            I.assign_target(node.target, elem, fr)
+            cover(I, name + ".step")
+            try:
+                I.exec_block(node.body, fr)
+            except _Continue:
+                pass
+            except _Break:
+                raise Unsupported("break inside a fold loop")
+            for v, tf in terms.items():
+                P.check("%s.step[%s]" % (name, v), P.z(I.to_num(fr.vars[v])) == P.z(start[v] + I.to_num(tf(I, elem, fr))),
+                        "one iteration adds exactly the specified term to %s" % v, kind="post")
+            raise PathEnd()
+        cover(I, name + ".after")
+        for v, tf in terms.items():
+            if totals and v in totals:
+                tot = I.to_num(totals[v](I, seq, fr))
+            else:
+                b = alg.fresh_bound()
+                tot = alg.bigsum("", seq.core_len, I.to_num(tf(I, seq.core_at(I, b), fr)), bound=b)
+                for x in seq.tail:
+                    tot = tot + I.to_num(tf(I, x, fr))
+            fr.vars[v] = olds[v] + tot
+        for n_ in [n.id for n in ast.walk(node.target) if isinstance(n, ast.Name)]:
+            fr.vars.pop(n_, None)
+
+    return handler
